@@ -460,7 +460,13 @@ class IGen(Gen):
                     pt = [("I", r.randrange(ni)) if r.random() < 0.35 else "T", "T"]
                     r.shuffle(pt)
                 methods.append(dict(ptypes=pt))
-            ifaces.append(dict(methods=methods))
+            if k > 0 and r.random() < self.p_extend:
+                # I_k repeats the methods of I_(k-1) (same names and signatures) before its own: every I_k is an I_(k-1)
+                base = k - 1
+                own = methods[:r.randint(0, 1)]
+                ifaces.append(dict(methods=[dict(ptypes=list(md["ptypes"])) for md in ifaces[base]["methods"]] + own, base=base))
+            else:
+                ifaces.append(dict(methods=methods))
         funcs = []
         for f in range(nf):
             pkg = npk - 1 if f == 0 else r.randrange(npk)
@@ -516,9 +522,20 @@ class IGen(Gen):
     def vars(self):
         return self.vars_t("T")
 
+    p_extend = 0.5     # share of the second interfaces that extend the first
+
+    def extends(self, k2, ik):
+        """is I_k2 (strictly) an extension of I_ik?"""
+        b = self.p["ifaces"][k2].get("base")
+        while b is not None:
+            if b == ik:
+                return True
+            b = self.p["ifaces"][b].get("base")
+        return False
+
     def impls_of(self, ik):
         k = self.p["funcs"][self.f]["pkg"]
-        return [j for j, im in enumerate(self.p["impls"]) if im["iface"] == ik and im["pkg"] <= k]
+        return [j for j, im in enumerate(self.p["impls"]) if (im["iface"] == ik or self.extends(im["iface"], ik)) and im["pkg"] <= k]
 
     def atom_t(self, ty):
         if ty == "T":
@@ -528,9 +545,14 @@ class IGen(Gen):
         vs = self.vars_t(ty)
         if r < 0.15 or (not js and not vs):
             return "nil"
+        # a variable of an interface type that extends this one: an interface-to-interface conversion
+        wide = [(v, t[1]) for k2 in range(len(self.p["ifaces"])) if self.extends(k2, ty[1]) for v in self.vars_t(("I", k2)) for t in [("I", k2)]]
+        if wide and r > 0.55:
+            v, k2 = self.rng.choice(wide)
+            return ("iconv", ty[1], k2, v)
         if js and (r < 0.6 or not vs):
             return ("conv", ty[1], self.rng.choice(js))
-        return self.rng.choice(vs)
+        return self.rng.choice(vs) if vs else "nil"
 
     def callees(self):
         k = self.p["funcs"][self.f]["pkg"]
@@ -680,6 +702,7 @@ def probed(fd):
             and (fd.get("ptypes") or ["T"])[0] == "T" and fd.get("rtype", "T") == "T")
 
 
+SRC = {}    # program name -> the Go source that was analysed and run (with the spellings chosen for it)
 SRET = {}   # program name -> {(file, line)} of the return statements whose error operand is the package-level sentinel
 
 
@@ -692,10 +715,12 @@ def write_module(root, progs, styles):
     imports, entries = [], []
     for name, p in progs.items():
         pr = M.Printer(p, name, styles.get(name))
-        for rel, txt in pr.files().items():
+        pr.files_cache = pr.files()
+        for rel, txt in pr.files_cache.items():
             fn = os.path.join(root, rel)
             os.makedirs(os.path.dirname(fn), exist_ok=True)
             open(fn, "w").write(txt)
+        SRC[name] = "".join("// %s\n%s" % (rel, txt) for rel, txt in sorted(pr.files_cache.items()))
         pos[name] = dict(pr.pos)
         cpos[name] = dict(pr.cpos)
         SRET[name] = set(pr.sret)
@@ -1176,6 +1201,8 @@ def truth_complete(truth, name):
 
 
 def show(p, name, ctr=()):
+    if name in SRC:
+        return SRC[name] + "model-line: " + M.prog_line(p, ctr) + "\n"
     pr = M.Printer(p, name, None)
     return "".join("// %s\n%s" % (k, v) for k, v in pr.files().items()) + "model-line: " + M.prog_line(p, ctr) + "\n"
 
@@ -1551,4 +1578,15 @@ def conv_witnesses(p):
                     args[pi] = ("conv", k, j)
                     q["funcs"][0]["body"] = M.seq([("assign", L(40), ("conv", a, ja)), ("calli", L(0), L(40), a, ma, args, 1, 1), ("deref", 2, L(0))])
                     out.append(("ifacearg", q))
+        # interface-to-interface: the value is made as an I_k and used through an interface I_b that I_k extends
+        b = ifaces[k].get("base")
+        while b is not None:
+            for m in range(len(ifaces[b]["methods"])):
+                q = base()
+                q["funcs"][0]["ltypes"] = {40: ("I", k), 41: ("I", b)}
+                q["funcs"][0]["body"] = M.seq([("assign", L(40), ("conv", k, j)), ("assign", L(41), ("iconv", b, k, L(40))),
+                                               ("calli", L(0), L(41), b, m, ["nil"] * len(ifaces[b]["methods"][m]["ptypes"]), 1, 1),
+                                               ("deref", 2, L(0))])
+                out.append(("iface2iface", q))
+            b = ifaces[b].get("base")
     return out
